@@ -91,8 +91,8 @@ CANDIDATES = {
         "design": "5/C14",
     },
     "C15": {
-        "text": "CropBox::fit_src_into_dst_size with all four sizes symbolic in 1..=3 (thorough 1..=5 and 7): positive size, non-negative origin, inside the source exactly as CroppedSrcImageView::crop evaluates it, full span in one dimension, aspect ratio (centering any non-NaN f64 pair); margins = removed size x clamped centering (centering pair picked symbolically from {-3.5, 0, .25, .5, .75, 1, 7, +inf}^2 - with a free f64 the product of two symbolic doubles does not finish); zero sizes -> whole image.",
-        "note": "Everything above 3 (5/7) is OUTSIDE the claim - i.e. almost all of the 1..65535 range, including the double-rounding cases (the smallest overshooting pair of fl(fl(w/h)*h) is 7x25; seeded change C15a is missed for that reason).",
+        "text": "CropBox::fit_src_into_dst_size with all four sizes symbolic in 1..=3 (thorough 1..=5, 7, and 1..=31 for the in-bounds part): positive size, non-negative origin, inside the source exactly as CroppedSrcImageView::crop evaluates it, full span in one dimension, aspect ratio (centering any non-NaN f64 pair); margins = removed size x clamped centering (centering pair picked symbolically from {-3.5, 0, .25, .5, .75, 1, 7, +inf}^2 - with a free f64 the product of two symbolic doubles does not finish); zero sizes -> whole image.",
+        "note": "Everything above 3 (thorough: 31 for in-bounds, 5 for centering/aspect) is OUTSIDE the claim - i.e. almost all of the 1..65535 range, including the double-rounding cases (the smallest overshooting pair of fl(fl(w/h)*h) is 7x25; seeded change C15a is missed for that reason).",
         "design": "5/C15",
     },
     "C18": {
